@@ -33,3 +33,34 @@ def positive_controls(rep, pid):
                nontrivial=True, sample={"obligation": "CONTROL/" + name, "verdict": verdict, "rule_instances": info if verdict == "caught" else []})
     rep.analysed["positive_controls_run"] = n
     rep.rules.append("CONTROL(positive controls on scratch copies)")
+
+
+def negative_controls(rep, pid):
+    """behaviour-preserving variants (silent/*) that touch a file among this property's anchors must not raise an alarm"""
+    if os.environ.get("DECAF_REPO"):
+        return
+    sys.path.insert(0, os.path.join(VERIF, "tools"))
+    import scratch_check
+    anchors = set()
+    for ln in open(os.path.join(VERIF, "properties.jsonl")):
+        d = json.loads(ln)
+        if d["id"] == pid:
+            anchors = set(d["anchors"]["files"])
+    n = 0
+    for mf in sorted(glob.glob(os.path.join(VERIF, "silent", "*", "meta.json"))):
+        m = json.load(open(mf))
+        f = m.get("file") or ""
+        if not any(f == a or (a.endswith("/") and f.startswith(a)) or ("*" in a and f.split("/")[-1] == a.split("/")[-1]) for a in anchors):
+            continue
+        d = os.path.dirname(mf)
+        r = scratch_check.run(os.path.join(d, "patch.diff"), [pid])
+        verdict, info = r.get(pid, ("error", ""))
+        name = os.path.basename(d)
+        if verdict == "error" and "does not apply" in str(info):
+            rep.info("negative control %s skipped: its patch does not apply to the current working tree" % name)
+            continue
+        n += 1
+        rep.ob("SILENT/%s" % name, verdict == "silent",
+               "behaviour-preserving variant %s (%s) must not be reported: %s %s" % (name, (m.get("summary") or "")[:120], verdict, info if verdict != "silent" else ""),
+               nontrivial=True)
+    rep.analysed["negative_controls_run"] = n
